@@ -14,12 +14,13 @@ using namespace vh;
 enum { T_STATE, T_INC128, T_INC128A, T_INC80PQ, T_HASH, T_HASHA, T_XOF, T_XOFA, T_PRF, T_HMAC, T_HMACA, T_KMAC, T_KMACA, T_KDF, T_KDFA, T_HKDF, T_HKDFA,
        T_RANDOM, T_ISAP128A, T_ISAP128, T_ISAP80PQ, T_MKEY128, T_MKEY160,
        T_CPP_AEAD0, T_CPP_AEAD1, T_CPP_AEAD2, T_CPP_MASKED0, T_CPP_MASKED1, T_CPP_MASKED2, T_CPP_SIV0, T_CPP_SIV1, T_CPP_SIV2, T_CPP_ISAP0, T_CPP_ISAP1, T_CPP_ISAP2,
-       T_CPP_HASH, T_CPP_HASHA, T_CPP_XOF, T_CPP_XOFA, T_COUNT };
+       T_CPP_HASH, T_CPP_HASHA, T_CPP_XOF, T_CPP_XOFA, T_CPP_XOF32, T_CPP_XOFA64_NAMED, T_CLEAN_BUFFER, T_COUNT };
 static const char *TNAME[T_COUNT] = {"ascon_state_t", "ascon128_state_t", "ascon128a_state_t", "ascon80pq_state_t", "ascon_hash_state_t", "ascon_hasha_state_t", "ascon_xof_state_t", "ascon_xofa_state_t",
     "ascon_prf_state_t", "ascon_hmac_state_t", "ascon_hmaca_state_t", "ascon_kmac_state_t", "ascon_kmaca_state_t", "ascon_kdf_state_t", "ascon_kdfa_state_t", "ascon_hkdf_state_t", "ascon_hkdfa_state_t",
     "ascon_random_state_t", "ascon128a_isap_aead_key_t", "ascon128_isap_aead_key_t", "ascon80pq_isap_aead_key_t", "ascon_masked_key_128_t", "ascon_masked_key_160_t",
     "ascon::aead128", "ascon::aead128a", "ascon::aead80pq", "ascon::aead128_masked", "ascon::aead128a_masked", "ascon::aead80pq_masked", "ascon::siv128", "ascon::siv128a", "ascon::siv80pq",
-    "ascon::isap128a", "ascon::isap128", "ascon::isap80pq", "ascon::hash", "ascon::hasha", "ascon::xof", "ascon::xofa"};
+    "ascon::isap128a", "ascon::isap128", "ascon::isap80pq", "ascon::hash", "ascon::hasha", "ascon::xof", "ascon::xofa",
+    "ascon::xof_with_output_length<32>", "ascon::xofa_with_output_length<64>(name, custom)", "buffer given to ascon_clean()"};
 
 struct Pub { int type; Bytes nonce, ad; std::vector<uint64_t> chunks; size_t outlen; unsigned flags; int end; };
 struct Sec { Bytes key, msg, tape; std::vector<uint64_t> words; };
@@ -38,7 +39,9 @@ static size_t type_size(int t) {
     case T_CPP_MASKED0: return sizeof(ascon::aead128_masked); case T_CPP_MASKED1: return sizeof(ascon::aead128a_masked); case T_CPP_MASKED2: return sizeof(ascon::aead80pq_masked);
     case T_CPP_SIV0: return sizeof(ascon::siv128); case T_CPP_SIV1: return sizeof(ascon::siv128a); case T_CPP_SIV2: return sizeof(ascon::siv80pq);
     case T_CPP_ISAP0: return sizeof(ascon::isap128a); case T_CPP_ISAP1: return sizeof(ascon::isap128); case T_CPP_ISAP2: return sizeof(ascon::isap80pq);
-    case T_CPP_HASH: return sizeof(ascon::hash); case T_CPP_HASHA: return sizeof(ascon::hasha); case T_CPP_XOF: return sizeof(ascon::xof); default: return sizeof(ascon::xofa);
+    case T_CPP_HASH: return sizeof(ascon::hash); case T_CPP_HASHA: return sizeof(ascon::hasha); case T_CPP_XOF: return sizeof(ascon::xof);
+    case T_CPP_XOF32: return sizeof(ascon::xof_with_output_length<32>); case T_CPP_XOFA64_NAMED: return sizeof(ascon::xofa_with_output_length<64>); case T_CLEAN_BUFFER: return 203;
+    default: return sizeof(ascon::xofa);
     }
 }
 
@@ -61,6 +64,7 @@ template <class C> static void cpp_cipher_history(void *mem, const Pub &p, const
     o->set_key(k.p, keylen);
     o->set_nonce(n.p, 16);
     o->encrypt(c.p, m.p, m.n, a.p, a.n);
+    if (p.flags & 8) if (ascon::aead_masked *mo = dynamic_cast<ascon::aead_masked *>((ascon::aead *)o)) mo->randomize_key();
     if (p.flags & 2) { Buf back(s.msg.size()); o->set_nonce(n.p, 16); o->decrypt(back.p, c.p, c.n, a.p, a.n); }
     if (p.end == 0) { o->clear(); /* object stays alive: its bytes are inspected, then it is destroyed */ }
     else if (p.end == 2) { ascon::aead *base = o; base->~aead(); }    // destroyed the way delete / unique_ptr<ascon::aead> does it
@@ -101,9 +105,9 @@ static void run_history(void *mem, const Pub &p, const Sec &s) {
     case T_HKDF: { ascon_hkdf_state_t *st = (ascon_hkdf_state_t *)mem; ascon_hkdf_extract(st, k.p, k.n, m.p, m.n); if (p.flags & 2) { Buf o(p.outlen); ascon_hkdf_expand(st, a.p, a.n, o.nn(), p.outlen); } if (p.flags & 4) { /* use up the whole 255-block output stream (the block counter wraps), optionally ask for more */ size_t used = (p.flags & 2) ? p.outlen : 0; size_t rest = used < 8160 ? 8160 - used : 0; if (p.flags & 8) rest -= rest ? 1 + p.outlen % 31 % rest : 0; Buf big(rest); ascon_hkdf_expand(st, a.p, a.n, big.nn(), rest); if (p.flags & 16) { Buf more(40); ascon_hkdf_expand(st, a.p, a.n, more.p, 40); } } ascon_hkdf_free(st); break; }
     case T_HKDFA: { ascon_hkdfa_state_t *st = (ascon_hkdfa_state_t *)mem; ascon_hkdfa_extract(st, k.p, k.n, m.p, m.n); if (p.flags & 2) { Buf o(p.outlen); ascon_hkdfa_expand(st, a.p, a.n, o.nn(), p.outlen); } if (p.flags & 4) { /* use up the whole 255-block output stream (the block counter wraps), optionally ask for more */ size_t used = (p.flags & 2) ? p.outlen : 0; size_t rest = used < 8160 ? 8160 - used : 0; if (p.flags & 8) rest -= rest ? 1 + p.outlen % 31 % rest : 0; Buf big(rest); ascon_hkdfa_expand(st, a.p, a.n, big.nn(), rest); if (p.flags & 16) { Buf more(40); ascon_hkdfa_expand(st, a.p, a.n, more.p, 40); } } ascon_hkdfa_free(st); break; }
     case T_RANDOM: { ascon_random_state_t *st = (ascon_random_state_t *)mem; ascon_random_init(st); if (p.flags & 2) { Buf o(p.outlen); ascon_random_fetch(st, o.nn(), p.outlen); } ascon_random_feed(st, m.p, m.n); if (p.flags & 4) ascon_random_reseed(st); if ((p.flags & 24) == 24) { Buf big(16384 + p.outlen); ascon_random_fetch(st, big.p, big.n); if (p.flags & 32) { Buf o(8); ascon_random_fetch(st, o.p, 8); } } ascon_random_free(st); break; }
-    case T_ISAP128A: { ascon128a_isap_aead_key_t *pk = (ascon128a_isap_aead_key_t *)mem; ascon128a_isap_aead_init(pk, k.p); if (p.flags & 2) { Buf n(p.nonce), c(s.msg.size() + 16); size_t cl; ascon128a_isap_aead_encrypt(c.p, &cl, m.p, m.n, a.p, a.n, n.p, pk); } ascon128a_isap_aead_free(pk); break; }
-    case T_ISAP128: { ascon128_isap_aead_key_t *pk = (ascon128_isap_aead_key_t *)mem; ascon128_isap_aead_init(pk, k.p); if (p.flags & 2) { Buf n(p.nonce), c(s.msg.size() + 16); size_t cl; ascon128_isap_aead_encrypt(c.p, &cl, m.p, m.n, a.p, a.n, n.p, pk); } ascon128_isap_aead_free(pk); break; }
-    case T_ISAP80PQ: { ascon80pq_isap_aead_key_t *pk = (ascon80pq_isap_aead_key_t *)mem; ascon80pq_isap_aead_init(pk, k.p); if (p.flags & 2) { Buf n(p.nonce), c(s.msg.size() + 16); size_t cl; ascon80pq_isap_aead_encrypt(c.p, &cl, m.p, m.n, a.p, a.n, n.p, pk); } ascon80pq_isap_aead_free(pk); break; }
+    case T_ISAP128A: { ascon128a_isap_aead_key_t *pk = (ascon128a_isap_aead_key_t *)mem; if (p.flags & 4) { ascon128a_isap_aead_key_t tmp; Buf sv(80); ascon128a_isap_aead_init(&tmp, k.p); ascon128a_isap_aead_save_key(&tmp, sv.p); ascon128a_isap_aead_free(&tmp); ascon128a_isap_aead_load_key(pk, sv.p); } else ascon128a_isap_aead_init(pk, k.p); if (p.flags & 2) { Buf n(p.nonce), c(s.msg.size() + 16); size_t cl; ascon128a_isap_aead_encrypt(c.p, &cl, m.p, m.n, a.p, a.n, n.p, pk); } ascon128a_isap_aead_free(pk); break; }
+    case T_ISAP128: { ascon128_isap_aead_key_t *pk = (ascon128_isap_aead_key_t *)mem; if (p.flags & 4) { ascon128_isap_aead_key_t tmp; Buf sv(80); ascon128_isap_aead_init(&tmp, k.p); ascon128_isap_aead_save_key(&tmp, sv.p); ascon128_isap_aead_free(&tmp); ascon128_isap_aead_load_key(pk, sv.p); } else ascon128_isap_aead_init(pk, k.p); if (p.flags & 2) { Buf n(p.nonce), c(s.msg.size() + 16); size_t cl; ascon128_isap_aead_encrypt(c.p, &cl, m.p, m.n, a.p, a.n, n.p, pk); } ascon128_isap_aead_free(pk); break; }
+    case T_ISAP80PQ: { ascon80pq_isap_aead_key_t *pk = (ascon80pq_isap_aead_key_t *)mem; if (p.flags & 4) { ascon80pq_isap_aead_key_t tmp; Buf sv(80); ascon80pq_isap_aead_init(&tmp, k.p); ascon80pq_isap_aead_save_key(&tmp, sv.p); ascon80pq_isap_aead_free(&tmp); ascon80pq_isap_aead_load_key(pk, sv.p); } else ascon80pq_isap_aead_init(pk, k.p); if (p.flags & 2) { Buf n(p.nonce), c(s.msg.size() + 16); size_t cl; ascon80pq_isap_aead_encrypt(c.p, &cl, m.p, m.n, a.p, a.n, n.p, pk); } ascon80pq_isap_aead_free(pk); break; }
     case T_MKEY128: { ascon_masked_key_128_t *mk = (ascon_masked_key_128_t *)mem; ascon_masked_key_128_init(mk, k.p); if (p.flags & 2) ascon_masked_key_128_randomize(mk); if (p.flags & 4) { Buf n(p.nonce), c(s.msg.size() + 16); size_t cl; ascon128_masked_aead_encrypt(c.p, &cl, m.p, m.n, a.p, a.n, n.p, mk); } ascon_masked_key_128_free(mk); break; }
     case T_MKEY160: { ascon_masked_key_160_t *mk = (ascon_masked_key_160_t *)mem; ascon_masked_key_160_init(mk, k.p); if (p.flags & 2) ascon_masked_key_160_randomize(mk); if (p.flags & 4) { Buf n(p.nonce), c(s.msg.size() + 16); size_t cl; ascon80pq_masked_aead_encrypt(c.p, &cl, m.p, m.n, a.p, a.n, n.p, mk); } ascon_masked_key_160_free(mk); break; }
     case T_CPP_AEAD0: cpp_cipher_history<ascon::aead128>(mem, p, s, 16, false); break;
@@ -121,6 +125,9 @@ static void run_history(void *mem, const Pub &p, const Sec &s) {
     case T_CPP_HASH: { ascon::hash *h = new (mem) ascon::hash(); h->update(m.p, m.n); if (p.flags & 2) { Buf o(32); h->finalize(o.p); } h->~hash(); break; }
     case T_CPP_HASHA: { ascon::hasha *h = new (mem) ascon::hasha(); h->update(m.p, m.n); if (p.flags & 2) { Buf o(32); h->finalize(o.p); } h->~hasha(); break; }
     case T_CPP_XOF: { ascon::xof *h = new (mem) ascon::xof(); h->absorb(m.p, m.n); if (p.flags & 2) { Buf o(p.outlen); h->squeeze(o.nn(), p.outlen); } { typedef ascon::xof X; h->~X(); } break; }
+    case T_CPP_XOF32: { typedef ascon::xof_with_output_length<32> X; X *h = new (mem) X(); h->absorb(m.p, m.n); if (p.flags & 2) { Buf o(p.outlen); h->squeeze(o.nn(), p.outlen); } if (p.flags & 4) h->reset(); h->~X(); break; }
+    case T_CPP_XOFA64_NAMED: { typedef ascon::xofa_with_output_length<64> X; X *h = new (mem) X("wipe", k.p, k.n); h->absorb(m.p, m.n); if (p.flags & 2) { Buf o(p.outlen); h->squeeze(o.nn(), p.outlen); } h->~X(); break; }
+    case T_CLEAN_BUFFER: { uint8_t *b = (uint8_t *)mem; for (size_t i = 0; i < 203; ++i) b[i] = s.msg.empty() ? s.key[i % s.key.size()] : (uint8_t)(s.msg[i % s.msg.size()] ^ s.key[i % s.key.size()]); ascon_clean(b, 203); break; }
     default: { ascon::xofa *h = new (mem) ascon::xofa(); h->absorb(m.p, m.n); if (p.flags & 2) { Buf o(p.outlen); h->squeeze(o.nn(), p.outlen); } { typedef ascon::xofa X; h->~X(); } break; }
     }
 }
